@@ -5,6 +5,9 @@ import (
 	"testing"
 
 	"github.com/elastos/Elastos.ELA/core/types"
+	ctypes "github.com/elastos/Elastos.ELA/core/types/common"
+	"github.com/elastos/Elastos.ELA/core/types/functions"
+	"github.com/elastos/Elastos.ELA/core/types/interfaces"
 
 	"pgregory.net/rapid"
 )
@@ -46,4 +49,17 @@ func TestGenBlockSmoke(t *testing.T) {
 			t.Fatalf("deserialize: %v", err)
 		}
 	})
+}
+
+// TestSpecsCoverGetTransaction: Specs lists exactly the types the node can
+// construct (transaction.GetTransaction / interfaces.GetPayload).
+func TestSpecsCoverGetTransaction(t *testing.T) {
+	Init()
+	for b := 0; b < 256; b++ {
+		_, err := functions.GetTransactionByTxType(ctypes.TxType(b))
+		_, perr := interfaces.GetPayload(ctypes.TxType(b), 0)
+		if (err == nil) != (SpecOf(ctypes.TxType(b)) != nil) || (err == nil) != (perr == nil) {
+			t.Fatalf("type 0x%02x: GetTransaction err=%v GetPayload err=%v spec=%v", b, err, perr, SpecOf(ctypes.TxType(b)) != nil)
+		}
+	}
 }
